@@ -332,6 +332,36 @@ func genC14(r *Rand, tier string) *Case {
 		c.Server.Limit = limit
 	}
 	c.Conns[0].Cuts = genCuts(r)
+	if r.Chance(1, 6) && len(cols) > 0 {
+		// an earlier binary COPY on the same connection into another relation
+		// whose columns have the same names (and table id) but other types:
+		// whatever the reader prepared for that one is of no use for this one
+		cols0 := make([]ColSpec, len(cols))
+		row0 := make([][]byte, len(cols))
+		for i, cl := range cols {
+			alt := uint32(pgwire.OIDInt4)
+			if cl.OID == pgwire.OIDInt4 {
+				alt = pgwire.OIDText
+			}
+			cols0[i] = ColSpec{Name: cl.Name, OID: alt, Table: cl.Table}
+			v := genVal(r, alt)
+			if alt == pgwire.OIDText {
+				v = Val{G: "string", S: r.Pick("abcd", "token-2", "x")}
+			}
+			enc, err := pgwire.Encode(alt, 1, v.Canon(alt))
+			if err != nil || enc == nil {
+				enc = []byte{0, 0, 0, 7}
+				if alt == pgwire.OIDText {
+					enc = []byte("abcd")
+				}
+			}
+			row0[i] = enc
+		}
+		c.Programs["cp0"] = &Program{Stmts: []*StmtProg{{Cols: cols0, Ops: []Op{{K: "copyin", Fmt: 1}, {K: "binrows"}, {K: "finishcopy", Tag: "COPY"}}}}}
+		pre := []pgwire.FMsg{{K: "Q", S1: "cp0"}, {K: "d", Data: pgwire.EncodeBinaryCopy([][][]byte{row0}, true)}, {K: "c"}}
+		st := &c.Conns[0].Steps[1]
+		st.Msgs = append(pre, st.Msgs...)
+	}
 	if r.Chance(1, 4) {
 		// the handler reads every row under a time limit of its own that runs out
 		// while the row is being read, and reads again with its live context
@@ -361,6 +391,10 @@ func checkC14(x *Exec, c *Case) ([]Violation, bool) {
 		var got []string
 		gotEnd := ""
 		for _, e := range cs.Events {
+			if e.K == "stmt" && strings.HasPrefix(e.S, "cp#") {
+				// (rows of an earlier COPY into another relation are not judged)
+				got, gotEnd = nil, ""
+			}
 			if e.K != "op" {
 				continue
 			}
@@ -377,7 +411,7 @@ func checkC14(x *Exec, c *Case) ([]Violation, bool) {
 		if len(got) > 0 || gotEnd != "" {
 			nt = true
 		}
-		desc := fmt.Sprintf("(%d CopyData messages, variant %s)", len(cs.cc.FlatMsgs())-4, c.Variant)
+		desc := fmt.Sprintf("(%d messages in the flight, variant %s)", len(cs.cc.FlatMsgs())-1, c.Variant)
 		for k := 0; k < len(got) && k < len(want); k++ {
 			if got[k] != want[k] {
 				add("wrong-row", "wrong-row "+c.Variant, fmt.Sprintf("row %d decoded as %q, the client encoded %q %s", k, got[k], want[k], desc))
@@ -413,7 +447,7 @@ func checkC14(x *Exec, c *Case) ([]Violation, bool) {
 func init() {
 	register(&Prop{
 		ID: "C14", Level: "exploration", QuickS: 25, ThoroughS: 420,
-		Rule:       "binary COPY streams (signature, flags - in a sixth of the seeded cases with bits of the non-critical half 0-15 set, which readers ignore -, header extension area of 0-40 bytes, tuples, optional -1 trailer) produced by the independent encoder for tables of 1-5 columns over the covered types and 0-6 rows with NULLs anywhere; the chunking into CopyData messages is the schedule: for three short table shapes (stream <= 48 bytes), with and without trailer, EVERY split into 2 and into 3 CopyData messages is enumerated, plus whole-stream and one-byte-per-message; seeded cases use 1-byte messages, cuts inside the header, cuts exactly at row boundaries, random pieces incl. empty CopyData messages, on top of transport segmentation; corruptions: field count +1 / -1 / 0x7FFF / negative other than the -1 trailer, value length beyond the stream, truncated last row, garbage after the trailer; the rows returned by BinaryCopyReader.Read are compared with the encoded rows (value by value through the canonical form), the end of data must be io.EOF, a corruption must be an error and never a row, and the query after the COPY must be served; small message limits (256/1024) with fields of 0.5-5x the limit cut into CopyData messages that each fit; a quarter of the handlers read every row under a context that turns cancelled while the row is read and read again with their live context; non-trivial = the row reader was driven at least once; distinct = distinct case content hashes",
+		Rule:       "binary COPY streams (signature, flags - in a sixth of the seeded cases with bits of the non-critical half 0-15 set, which readers ignore -, header extension area of 0-40 bytes, tuples, optional -1 trailer) produced by the independent encoder for tables of 1-5 columns over the covered types and 0-6 rows with NULLs anywhere; the chunking into CopyData messages is the schedule: for three short table shapes (stream <= 48 bytes), with and without trailer, EVERY split into 2 and into 3 CopyData messages is enumerated, plus whole-stream and one-byte-per-message; seeded cases use 1-byte messages, cuts inside the header, cuts exactly at row boundaries, random pieces incl. empty CopyData messages, on top of transport segmentation; corruptions: field count +1 / -1 / 0x7FFF / negative other than the -1 trailer, value length beyond the stream, truncated last row, garbage after the trailer; the rows returned by BinaryCopyReader.Read are compared with the encoded rows (value by value through the canonical form), the end of data must be io.EOF, a corruption must be an error and never a row, and the query after the COPY must be served; small message limits (256/1024) with fields of 0.5-5x the limit cut into CopyData messages that each fit; a sixth of the seeded cases are preceded, on the same connection, by a binary COPY into a relation whose columns have the same names but other types; a quarter of the handlers read every row under a context that turns cancelled while the row is read and read again with their live context; non-trivial = the row reader was driven at least once; distinct = distinct case content hashes",
 		Exhaustive: "all 2-piece and 3-piece splits of the encoded stream for 3 table shapes x {trailer, no trailer} (streams <= 48 bytes)",
 		Components: e1Components, Assumptions: commonAssumptions,
 		Fixed: c14Fixed, Gen: genC14, Check: checkC14,
